@@ -261,6 +261,14 @@ func (in *Interp) fmtArg(a value, spec string, verb byte, approx bool) []ival {
 		case 'd', 'v':
 			return pad(in.decDigits(x), width, zero)
 		case 'x', 'X':
+			if zero && !x.signed && width >= int(x.bits)/4 && !strings.Contains(spec, "#") {
+				// zero-padded to at least the full width: all nibbles, no fork on the digit count
+				var out []ival
+				for i := int(x.bits)/4 - 1; i >= 0; i-- {
+					out = append(out, in.hexNibble(in.p.C.Extract(x.t, 4*i+3, 4*i), verb == 'X'))
+				}
+				return pad(out, width, true)
+			}
 			return pad(in.hexDigits(x, verb == 'X', strings.Contains(spec, "#")), width, zero)
 		case 'c':
 			C := in.p.C
